@@ -3,7 +3,7 @@
 #include "vh.h"
 #include "random/ascon-trng.h"
 unsigned trng_draws = 0;
-#define TRNG_TAPE_MAX 64
+#define TRNG_TAPE_MAX 256
 uint64_t trng_tape[TRNG_TAPE_MAX];     /* the values drawn, for obligations that talk about the tape */
 static uint64_t trng_note(uint64_t v) { if (trng_draws < TRNG_TAPE_MAX) trng_tape[trng_draws] = v; ++trng_draws; return v; }
 int trng_init_result_set = 0, trng_init_result = 1;
